@@ -224,13 +224,41 @@ def _export_replace_order():
 
 
 def _export_dummy_for():
-    """containers for whose names SpaceTranslator._get_class_def emits `name = None` lines"""
+    """containers for whose names SpaceTranslator._get_class_def emits `name = None` lines.
+    Two shapes are known: one loop per container (`for k, v in space.refs.items(): … lines.append(k + ' = None')`),
+    and - since fix 77f6b99 - a list `names` collected from `space.refs`, `space.spaces` and the `parameters` of
+    the space and of the spaces it is in, emitted by one loop over `dict.fromkeys(names)`."""
     cls = _class(_parse("modelx/export/exporter.py"), "SpaceTranslator")
     fn = _method(cls, "_get_class_def")
     res = []
+    collected = []       # containers that feed the list `names`
     for st in fn.body:
-        if isinstance(st, ast.For) and "lines.append(k + ' = None')" in _src_of(st):
+        src = _src_of(st)
+        if isinstance(st, ast.Assign) and _src_of(st.targets[0]) == "names":
+            m = [c for c in ("refs", "cells", "spaces") if src == "names = [k for k in space.%s if k[0] != '_']" % c]
+            if not m:
+                raise ValueError("unknown initial value of names: " + src)
+            collected.append(m[0])
+        elif isinstance(st, ast.Expr) and src.startswith("names.extend("):
+            m = [c for c in ("refs", "cells", "spaces")
+                 if src == "names.extend((k for k in space.%s if k[0] != '_'))" % c]
+            if not m:
+                raise ValueError("unknown extension of names: " + src)
+            collected.append(m[0])
+        elif isinstance(st, ast.While) and "names.extend" in src:
+            ok = (_src_of(st.test) == "isinstance(parent, BaseSpace)"
+                  and [_src_of(b) for b in st.body] ==
+                  ["if parent.parameters:\n    names.extend(parent.parameters)", "parent = parent.parent"])
+            if not ok:
+                raise ValueError("unknown parameter walk: " + src)
+            collected.append("params")
+        elif isinstance(st, ast.For) and "lines.append(k + ' = None')" in src:
             it = _src_of(st.iter)
+            if it == "dict.fromkeys(names)":
+                if [_src_of(b) for b in st.body] != ["lines.append(k + ' = None')"]:
+                    raise ValueError("unknown body of the dummy loop")
+                res.extend(collected)
+                continue
             m = [c for c in ("refs", "cells", "spaces") if it == "space.%s.items()" % c]
             if not m:
                 raise ValueError("unknown container " + it)
